@@ -69,6 +69,7 @@ def build(ctx):
     part_module_file_classification(ctx, eng)
     import resolvermodel
     resolvermodel.part_find_external_module(ctx, eng, 'C05', resolvermodel.replay_find_external_module)
+    resolvermodel.part_walkers_pass_errors_on(ctx, eng, 'C05', resolvermodel.replay_walkers)
 
 
 def part_emitter(ctx, eng, rp):
